@@ -166,6 +166,7 @@ type Run struct {
 	errLog   []errEnt // written by hooks on thread goroutines (no maps, no fmt there: see Hash in package probe)
 	panicLog []panicEnt
 	cancel   func()
+	hSpawn   int // threads created by the harness itself (all from thread 0, before or around the directive)
 	gate     *vs.Chan[struct{}]
 	overbar  *vs.WaitGroup
 	Misc     []Finding
@@ -347,6 +348,7 @@ func (s *Scenario) Body() (func(), *Run) {
 			r.CancelVC = vs.Now()
 		}
 		if s.Cancel == "thread" {
+			r.hSpawn++
 			vs.Go(func() { r.cancel(); r.CancelVC = vs.Now() })
 		}
 		// "prestack": one emitter stack with spare capacity, built once and shared by all instances
@@ -400,6 +402,7 @@ func (s *Scenario) Body() (func(), *Run) {
 		// Gated functions are released once every instance has returned - by a thread of its own, so that the
 		// release carries no happens-before edge from the caller's code after the directive (race build).
 		if s.usesGate() {
+			r.hSpawn++
 			vs.Go(func() {
 				vs.WaitUntil(func() bool {
 					for _, b := range r.Returned {
@@ -418,6 +421,7 @@ func (s *Scenario) Body() (func(), *Run) {
 			done := vs.NewChan[struct{}](0).Name("inst-done")
 			for i := 1; i < n; i++ {
 				i := i
+				r.hSpawn++
 				vs.Go(func() { runInst(i); done.Send(struct{}{}) })
 			}
 			runInst(0)
@@ -606,10 +610,16 @@ func Check(r *Run, ex *vs.Exec) []Finding {
 				blocked = append(blocked, fmt.Sprintf("T%d(%s) on %s", t.ID, t.Name, t.Pending))
 			}
 		}
+		if s.OverN > 0 {
+			nBar = s.OverN
+		}
+		if len(blocked) > 8 {
+			blocked = append(blocked[:8], fmt.Sprintf("... %d threads in all", len(blocked)))
+		}
 		add("C03", "capacity lost: %d user functions that are all runnable and must execute at the same time (limit %d) never all ran; blocked: %s", nBar, nBar, strings.Join(blocked, "; "))
 		return out
 	}
-	if s.OverN > 0 {
+	if s.OverN > 0 && nOver > 0 {
 		nOver = s.OverN
 	}
 	if nOver > 0 {
@@ -737,6 +747,28 @@ func Check(r *Run, ex *vs.Exec) []Finding {
 	limit := s.N
 	if limit == 0 {
 		limit = concOf(s.prog)
+		if limit == 4 && s.GOMAXP > 4 {
+			limit = s.GOMAXP
+		}
+	}
+	// C03: the goroutines one directive creates are the scheduler loop, the starter of the workers, `limit` workers and one
+	// replacement per worker killed by runtime.Goexit - whatever the number of tasks, elements or reports
+	if limit > 0 {
+		goexits := 0
+		for _, c := range r.Calls {
+			if c.Kind == probe.Goexit {
+				goexits++
+			}
+		}
+		created := ex.Spawned - 1 - r.hSpawn
+		if bound := len(r.Outs)*(2+limit) + goexits; created > bound {
+			var names []string
+			for _, t := range ex.Threads {
+				names = append(names, t.Name)
+			}
+			add("C03", "the directive created %d goroutines; with limit %d the scheduler needs %d (one loop, one starter, %d workers%s); threads by creation path: %s", created, limit, bound, limit,
+				map[bool]string{true: fmt.Sprintf(", %d replacements for workers killed by Goexit", goexits), false: ""}[goexits > 0], strings.Join(names, " "))
+		}
 	}
 	if limit > 0 && len(r.Outs) == 1 {
 		var started []*call
